@@ -24,15 +24,18 @@ import (
 // astutil.Walk/Inspect visit every node exactly once.
 //
 // Ties (kind "correspondence"):
-//   tables      Gen/AstSchema.lean's schema/xref/ptr/list/isexpr/annotations vs. a reflection
-//               reading of the ast struct types
-//   clone-model model `clone cloned` vs. the shape of the real copy, on every tree
-//   walk-model  model `walk walked` vs. the multiset of nodes the real Walk visits
-//   never-nil / annotations-empty / nil-safety   the written assumptions of the model
+//
+//	tables      Gen/AstSchema.lean's schema/xref/ptr/list/isexpr/annotations vs. a reflection
+//	            reading of the ast struct types
+//	clone-model model `clone cloned` vs. the shape of the real copy, on every tree
+//	walk-model  model `walk walked` vs. the multiset of nodes the real Walk visits
+//	never-nil / annotations-empty / nil-safety   the written assumptions of the model
+//
 // Oracles on the real code (kind "property"), independent of the model, on every tree parsed
 // from the corpus and from generated sources:
-//   clone-equal, clone-dump-equal, clone-shares-memory, clone-mutation-reaches-original,
-//   clone-panics, walk-visits-every-node-once, walk-panics, inspect-equals-walk
+//
+//	clone-equal, clone-dump-equal, clone-shares-memory, clone-mutation-reaches-original,
+//	clone-panics, walk-visits-every-node-once, walk-panics, inspect-equals-walk
 func main() { hx.Main("C28", run) }
 
 func try(f func()) (p string) {
@@ -508,9 +511,6 @@ func (r *runner) checkTree(in *input, tree ast.Node, parsed bool, label string) 
 func (r *runner) flush() {
 	if len(r.lines) == 0 || r.c.D == nil {
 		return
-	}
-	if f := os.Getenv("C28_DUMP"); f != "" {
-		os.WriteFile(f, []byte(strings.Join(r.lines, "\n")+"\n"), 0o644)
 	}
 	resp, err := r.c.D.Batch(r.lines)
 	if err != nil {
